@@ -8,7 +8,11 @@ import (
 )
 
 // genConsts: numeric and string constants the models use.
-func genConsts(e *emitter, kmd, certgen, proto *pkgInfo, repo string) {
+func init() { register("consts", genConsts) }
+
+func genConsts(e *emitter) {
+	kmd := e.pkg("cmd/keymasterd")
+	proto := e.pkg("lib/webapi/v0/proto")
 	var b strings.Builder
 	b.WriteString("namespace KM.Gen\n\n")
 	ints := map[string]int64{}
